@@ -124,7 +124,8 @@ class Vhdx(Parser):
             # an item this reader does not know, flagged IsRequired (0x4), alone or with IsUser (0x1) / IsVirtualDisk (0x2)
             "unknown_required_item": [("unknown_item", uuid.UUID(int=g), fl) for g in (0xDEADBEEF, enc_vhdx.G_DISK_SIZE.int ^ 1) for fl in (0x4, 0x5, 0x6, 0x7)],
             "locator_type": [("locator_type", uuid.UUID(int=k)) for k in (0, 1, enc_vhdx.G_VHDX_LOCATOR.int ^ 1, enc_vhdx.G_VHDX_LOCATOR.int ^ (1 << 127))],
-            "parent_resolved": [("missing_parent",)],
+            # the parent cannot be located: not on disk, or the child was handed over as an anonymous stream (no directory to look in)
+            "parent_resolved": [("missing_parent",), ("anonymous_handle", "bytesio"), ("anonymous_handle", "buffered")],
             "bat_region": [("omit_region", enc_vhdx.G_BAT)],
         }
 
@@ -140,7 +141,7 @@ class Vhdx(Parser):
 
     def open(self, variants):
         from dissect.hypervisor.disk.vhdx import VHDX
-        sigs, omit_r, omit_i, extra = {}, [], [], []
+        sigs, omit_r, omit_i, extra, anon = {}, [], [], [], None
         has_parent = "locator_type" in variants or "parent_resolved" in variants
         ltype = enc_vhdx.G_VHDX_LOCATOR
         parent_exists = has_parent
@@ -157,6 +158,8 @@ class Vhdx(Parser):
                 extra.append((v[1], b"\x11" * 16, v[2]))
             elif v[0] == "missing_parent":
                 parent_exists = False
+            elif v[0] == "anonymous_handle":
+                anon = v[1]
         d = tempfile.mkdtemp(prefix="c12-vhdx-", dir=self.work)
         try:
             loc = {"parent_linkage": "{1}", "relative_path": ".\\parent.vhdx", "absolute_win32_path": "C:\\nowhere\\parent.vhdx"} if has_parent else None
@@ -167,7 +170,11 @@ class Vhdx(Parser):
             if has_parent and parent_exists:
                 pv, _ = enc_vhdx.build([(enc_vhdx.ST_FULL, 0)], block_size=1 << 20, sector_size=512, disk_size=1 << 20, file_id=3)
                 pv.materialise(os.path.join(d, "parent.vhdx"))
-            v = VHDX(Path(d) / "child.vhdx")
+            if anon:
+                data = open(os.path.join(d, "child.vhdx"), "rb").read()
+                v = VHDX(io.BytesIO(data) if anon == "bytesio" else io.BufferedReader(io.BytesIO(data)))
+            else:
+                v = VHDX(Path(d) / "child.vhdx")
             if len(v.read(4096)) != 4096:
                 raise AssertionError("short")
         finally:
@@ -398,7 +405,8 @@ class KeysafeP(Parser):
 
     def gates(self):
         return {"identifier": [("ident", x) for x in ("vmware:keys", "Vmware:key", "vmware:key2", "", "vmware", "vmware:KEY")],
-                "locator_kind": [("kind", k) for k in ("rawkey", "ldap", "script", "role", "fqid", "phrase2", "Phrase", "")],
+                "locator_kind": [("kind", k) for k in ("rawkey", "ldap", "script", "role", "fqid", "phrase2", "Phrase", "")]
+                                + [("kind-in-second-pair", k, where) for k in ("rawkey", "ldap", "fqid", "script") for where in ("before", "after")],
                 # algorithm identifiers of a phrase locator / pair that this reader does not implement
                 "pass2key": [("alg", "PBKDF2-HMAC-SHA-1", x) for x in ("PBKDF2-HMAC-MD5", "PBKDF2-HMAC-SHA-512", "pbkdf2-hmac-sha-1", "SCRYPT", "", "PBKDF2-HMAC-SHA-1-128")],
                 "phrase_cipher": [("alg", "AES-256", x) for x in ("XTS-AES-256", "DES3-192", "aes-256", "AES-512", "AES-CTR-128", "CAMELLIA-256", "", "AES-64", "AES-256-GCM")],
@@ -413,6 +421,10 @@ class KeysafeP(Parser):
                 ks = v[1] + ks[len("vmware:key"):]
             elif v[0] == "kind":
                 ks = ks.replace("pair/(phrase/", f"pair/({v[1]}/")
+            elif v[0] == "kind-in-second-pair":
+                # a list of two pairs: one wrapped under a locator kind this reader does not implement, one valid phrase pair
+                other = pt.replace("pair/(phrase/", f"pair/({v[1]}/")
+                ks = enc_vmx.keysafe([other, pt] if v[2] == "before" else [pt, other])
             elif v[0] == "alg":
                 # the names appear percent-escaped (twice inside the phrase locator, once as the pair's MAC)
                 once, twice = enc_vmx.esc(v[1]), enc_vmx.esc(enc_vmx.esc(v[1]))
